@@ -783,16 +783,25 @@ def check_shared_distribution_key(prog, ctx):
     for loop in loops:
         lv = loop.target.id
         # memo dictionaries: local dicts with `K in D` tests and `D[K] = ...` stores inside the loop
-        stores = [st for st in ast.walk(loop) if isinstance(st, ast.Assign) and len(st.targets) == 1 and isinstance(st.targets[0], ast.Subscript)
-                  and isinstance(st.targets[0].value, ast.Name)]
-        for st in stores:
-            dname = st.targets[0].value.id
+        stores = [(st, st.targets[0].value.id, st.targets[0].slice) for st in ast.walk(loop) if isinstance(st, ast.Assign) and len(st.targets) == 1
+                  and isinstance(st.targets[0], ast.Subscript) and isinstance(st.targets[0].value, ast.Name)]
+        # D.setdefault(K, d): membership test, store and lookup in one call
+        for x in ast.walk(loop):
+            if isinstance(x, ast.Call) and isinstance(x.func, ast.Attribute) and x.func.attr == "setdefault" and isinstance(x.func.value, ast.Name) and len(x.args) == 2:
+                stores.append((R.stmt_of(x), x.func.value.id, x.args[0]))
+        seen_d = set()
+        for (st, dname, key_ast) in stores:
+            if dname in seen_d:
+                continue
             tests = [x for x in ast.walk(loop) if isinstance(x, ast.Compare) and len(x.ops) == 1 and isinstance(x.ops[0], (ast.In, ast.NotIn))
                      and isinstance(x.comparators[0], ast.Name) and x.comparators[0].id == dname]
+            tests += [x for x in ast.walk(loop) if isinstance(x, ast.Call) and isinstance(x.func, ast.Attribute) and x.func.attr == "setdefault"
+                      and isinstance(x.func.value, ast.Name) and x.func.value.id == dname]
             if not tests:
                 continue
+            seen_d.add(dname)
             sn = c.node_of(st)
-            key_t = R.resolve_locals(fi, tm.term(st.targets[0].slice), sn, tm, depth=4)
+            key_t = R.resolve_locals(fi, tm.term(key_ast), sn, tm, depth=4)
 
             def variant(t):
                 return {x for x in subterms(t) if x[0] == "s" and any(y == ("n", lv) for y in subterms(x[2]))}
@@ -812,6 +821,9 @@ def check_shared_distribution_key(prog, ctx):
                 # only constructions that the memo governs (some guard mentions the memo or a flag computed from it)
                 flag_names = {b.name for bs in tm.env.bindings.values() for b in bs if b.kind == "assign" and b.value is not None
                               and any(t_ is y for t_ in tests for y in ast.walk(b.value))}
+                for _round in range(2):                      # flags computed from flags (d_first = D.setdefault(K, d); known = d_first != d)
+                    flag_names |= {b.name for bs in tm.env.bindings.values() for b in bs if b.kind == "assign" and b.value is not None
+                                   and any(isinstance(y, ast.Name) and y.id in flag_names for y in ast.walk(b.value))}
                 governed = any(any(x == ("n", dname) or (x[0] == "n" and x[1] in flag_names) for x in subterms(g)) for g in guards)
                 if not governed:
                     continue
@@ -829,7 +841,7 @@ def check_shared_distribution_key(prog, ctx):
             if n_objs == 0:
                 continue
             n += 1
-            ctx.check(not missing, "C15.D11", R.key_of(fi, "shared-object-key-covers-inputs:%s" % dname), fi.loc(st),
+            ctx.check(not missing, "C15.D11", R.key_of(fi, "shared-object-key-covers-inputs:%s" % dname), fi.loc(st) if st is not None else fi.loc(),
                       "the key `%s` determines every loop-variant input of the %d object construction(s) it lets later dimensions share"
                       % (show(key_t)[:60], n_objs),
                       "the per-dimension objects are shared under the key `%s`, but %s depend(s) on %s, which the key does not determine: a later "
